@@ -94,7 +94,7 @@ def gen_net(rng, idx, profile):
         kind = rng.choice(menu.get(profile, allk))
         # Compositions that hit one of the recorded findings (known_findings.txt, reproduced deterministically by the
         # corpus networks) are kept rare in the random part so that they do not mask anything else.
-        if kind in avoid and rng.random() < 0.97:
+        if kind in avoid and rng.random() < 0.995:
             kind = rng.choice(["conv1x1", "add_self", "mul_const"])
         n, hh, ww, cc = xt.shape
         new = None
@@ -192,7 +192,9 @@ def gen_net(rng, idx, profile):
         if last.kind in ("QUANTIZE", "RESHAPE", "PAD", "EXPAND_DIMS", "SQUEEZE") + ACTIVATION_LIKE or (last.opts and last.opts[1].get("FusedActivationFunction", 0)):
             avoid.add("relu")
         if last.kind == "PAD":
-            avoid |= {"avgpool_valid", "avgpool_same"}      # folded into a depthwise convolution: its fused activation goes wrong
+            # a PAD is folded into its consumer: average pools, concatenations and strided windows go wrong (see the findings)
+            avoid |= {"avgpool_valid", "avgpool_same", "concat", "split_concat", "conv", "dwconv", "maxpool", "minmax", "tconv",
+                      "conv_cpu", "slice"}
         if last.kind in ACTIVATION_LIKE or kind == "pad_conv":
             avoid |= {"fc_end", "reshape_back"}
     if profile == "approx" and len(b.t(cur).shape) == 4:
@@ -235,7 +237,8 @@ def corpus_net(rng, name):
         x = b.input([1, 2, 1, 16], scale=0.0011566292960196733, zp=0)
     else:
       x = b.input({"known_pad_conv_reshape": [1, 4, 9, 4], "known_lut_reshape": [1, 3, 9, 8],
-                 "known_cascade_stale_row": [1, 10, 8, 8], "known_slice_strided_conv": [1, 6, 6, 4]}.get(name, [1, 6, 6, 8]), scale=0.05, zp=3)
+                 "known_cascade_stale_row": [1, 10, 8, 8], "known_slice_strided_conv": [1, 6, 6, 4],
+                 "known_pad_concat": [1, 1, 3, 16], "known_pad_strided_dw": [1, 10, 9, 4]}.get(name, [1, 6, 6, 8]), scale=0.05, zp=3)
     if name == "known_slice_relu":
         y = b.pool(x, "MAX_POOL_2D", (3, 3), (1, 1), "SAME")
         s = b.strided_slice(y, [0, 1, 2, 0], [1, 5, 6, 8])
@@ -274,6 +277,17 @@ def corpus_net(rng, name):
         fc = b.net.ops[-1]
         b.t(fc.inputs[1]).scales = [0.0021146892104297876]       # real multiplier 5.8e-6: reduced shift 32 >= 31
         b.t(fc.inputs[2]).scales = [0.0011566292960196733 * 0.0021146892104297876]
+    elif name == "known_slice_strided_pool":
+        s1 = b.strided_slice(x, [0, 2, 2, 0], [1, 6, 6, 8])
+        z = b.pool(s1, "MAX_POOL_2D", (1, 1), (2, 2), "VALID")
+    elif name == "known_pad_concat":
+        p = b.pad(x, [[0, 0], [0, 0], [0, 0], [0, 0]])
+        m = b.pool(p, "MAX_POOL_2D", (3, 3), (1, 1), "SAME")
+        z = b.concat([m, p, m], 3)
+        _same_quant(b, z, x)
+    elif name == "known_pad_strided_dw":
+        p = b.pad(x, [[0, 0], [1, 0], [1, 1], [0, 0]])
+        z = b.dwconv(p, (2, 2), (3, 3), (1, 1), "VALID", act=0)
     elif name == "known_reshape_relu":
         z = b.unary("RELU6", b.reshape(x, [1, 4, 9, 8]))
     else:  # known_quantize_relu
@@ -323,7 +337,8 @@ def _worker(job):
                    src_inputs=list(net.inputs),
                    src_graph=[(o.kind, list(o.inputs), list(o.outputs), int((o.opts[1] if o.opts else {}).get("FusedActivationFunction", 0)),
                                int((o.opts[1] if o.opts else {}).get("Padding", -1)),
-                               int((o.opts[1] if o.opts else {}).get("StrideW", 1))) for o in net.ops])
+                               max(int((o.opts[1] if o.opts else {}).get("StrideW", 1)), int((o.opts[1] if o.opts else {}).get("StrideH", 1))))
+                              for o in net.ops])
         with c01_lib.WeightCapture() as capture:
             res = pipeline.compile_net(data, opts, name=f"n{idx}")
         out.update(status=res.status, exc=(type(res.exc).__name__ + ": " + str(res.exc))[:300] if res.exc is not None else "",
@@ -388,7 +403,7 @@ def classify_failure(o, ans):
     bypassed by the compiler, so a producer is looked up through them."""
     g = o.get("src_graph") or []
     raw_producer, consumers = {}, {}
-    for kind, ins, outs, faf, pad, stride_w in g:
+    for kind, ins, outs, faf, pad, stride in g:
         for t in outs:
             raw_producer[t] = (kind, faf, ins)
         for t in ins:
@@ -406,20 +421,25 @@ def classify_failure(o, ans):
     slices = ("STRIDED_SLICE", "SPLIT")
     if "do_not_fit_the_IFM_depth" in ans:
         # slice folded into a convolution whose width stride is folded into the channels (fixup_strided_conv)
-        for kind, ins, outs, faf, pad, stride_w in g:
-            if kind == "CONV_2D" and stride_w > 1 and ins and producer_of(ins[0])[0] in slices:
+        for kind, ins, outs, faf, pad, stride in g:
+            if kind == "CONV_2D" and stride > 1 and ins and producer_of(ins[0])[0] in slices:
                 return "slice-folded-into-width-folded-strided-conv-keeps-unfolded-depth"
         return None
     if "do_not_fit_kernel" in ans:
         # PAD folded into the padding of a VALID convolution / pool whose output is consumed through a RESHAPE
-        for kind, ins, outs, faf, pad, stride_w in g:
+        for kind, ins, outs, faf, pad, stride in g:
             if kind in ("CONV_2D", "DEPTHWISE_CONV_2D", "AVERAGE_POOL_2D") and pad == 1 and ins and producer_of(ins[0])[0] == "PAD" \
                     and any(c in MEMORY_ONLY for c in consumers.get(outs[0], [])):
                 return "pad-folded-into-conv-then-reshape-resets-ofm-shape"
         return None
+    if "read_outside_region" in ans:
+        # PAD feeding a CONCATENATION directly: the concat copy is turned into a depthwise convolution with bad depth slices
+        for kind, ins, outs, faf, pad, stride in g:
+            if kind == "CONCATENATION" and any(producer_of(t)[0] == "PAD" for t in ins):
+                return "pad-folded-into-concat-copy-emits-zero-depth-stripe"
     if "read_outside_region" in ans or ans.endswith("verdict=fail"):
         # table-lookup activation whose output is consumed through a RESHAPE
-        for kind, ins, outs, faf, pad, stride_w in g:
+        for kind, ins, outs, faf, pad, stride in g:
             if kind in ("LEAKY_RELU", "LOGISTIC", "TANH", "HARD_SWISH") and any(c in MEMORY_ONLY for c in consumers.get(outs[0], [])):
                 return "lut-activation-then-reshape-resets-shapes"
     if not ans.endswith("verdict=fail"):
@@ -427,21 +447,28 @@ def classify_failure(o, ans):
     if o.get("dtype") == "int16" and any(k[0] == "FULLY_CONNECTED" for k in g) and \
             all(int(d) <= 1 for d in re.findall(r"maxdiff=(\d+)", ans)):
         return "int16-fully-connected-rounds-twice"
-    for kind, ins, outs, faf, pad, stride_w in g:
+    for kind, ins, outs, faf, pad, stride in g:
         if kind in slices:
             src = ins[0] if kind == "STRIDED_SLICE" else ins[1]
             if producer_of(src)[0] in slices:
                 return "slice-of-slice-read-offsets-not-accumulated"
-    for kind, ins, outs, faf, pad, stride_w in g:
-        if kind in ("CONV_2D", "DEPTHWISE_CONV_2D", "MAX_POOL_2D", "AVERAGE_POOL_2D") and ins:
+    windows = ("CONV_2D", "DEPTHWISE_CONV_2D", "MAX_POOL_2D", "AVERAGE_POOL_2D")
+    for kind, ins, outs, faf, pad, stride in g:
+        if kind in windows and stride > 1 and ins and producer_of(ins[0])[0] in slices:
+            return "slice-read-offset-multiplied-by-consumer-stride"
+    for kind, ins, outs, faf, pad, stride in g:
+        if kind in windows and stride > 1 and pad == 1 and ins and producer_of(ins[0])[0] == "PAD":
+            return "pad-folded-into-strided-window-drops-trailing-padding"
+    for kind, ins, outs, faf, pad, stride in g:
+        if kind in windows and ins:
             pk, _pf, pins = producer_of(ins[0])
             # padded window directly on the slice (SAME), or through a PAD that is folded into the window's padding
             if (pad == 0 and pk in slices) or (pk == "PAD" and pins and producer_of(pins[0])[0] in slices):
                 return "slice-read-offset-window-rows-not-clamped-to-slice"
-    for kind, ins, outs, faf, pad, stride_w in g:
+    for kind, ins, outs, faf, pad, stride in g:
         if kind == "AVERAGE_POOL_2D" and pad == 1 and faf != 0 and ins and producer_of(ins[0])[0] == "PAD":
             return "pad-folded-into-avgpool-fused-activation-clamps-with-zero-point-0"
-    for kind, ins, outs, faf, pad, stride_w in g:
+    for kind, ins, outs, faf, pad, stride in g:
         if kind in RELUS and ins:
             direct = raw_producer.get(ins[0], (None, 0, []))
             pk, pf, _pins = producer_of(ins[0])
@@ -492,7 +519,8 @@ def main():
     n = 50000 if ck.thorough else 6000
     k_inputs = 5 if ck.thorough else 4
     jobs = [(0, 0, "known_" + nm, k_inputs) for nm in ("slice_relu", "fused_act_relu", "pad_conv_reshape", "quantize_relu", "reshape_relu",
-                                                              "slice_window", "lut_reshape", "cascade_stale_row", "pad_avgpool_act", "slice_of_slice", "slice_strided_conv", "fc_int16")]
+                                                              "slice_window", "lut_reshape", "cascade_stale_row", "pad_avgpool_act", "slice_of_slice", "slice_strided_conv", "fc_int16",
+                                                              "slice_strided_pool", "pad_concat", "pad_strided_dw")]
     jobs += [(ck.seed, i, PROFILES[i % len(PROFILES)], k_inputs) for i in range(n)]
     ctx = multiprocessing.get_context("fork")
     with ProcessPoolExecutor(min(16, os.cpu_count() or 4), mp_context=ctx) as ex:
